@@ -585,3 +585,26 @@ Proof.
            (fun a b c E1 E2 => eq_trans E1 E2) (fun s t => eq_refl) (fun s t r => eq_refl) skel_apply_eq
            pre t post m m r eq_refl Hp Hn).
 Qed.
+
+(* ------------------------------------------------------------------ mempool admission and the check state *)
+
+(* whatever the trial execution does, each admitted transaction leaves the sender's sequence in the check state exactly
+   one higher and every other key as it was *)
+Lemma checktx_admit_state : forall R (p : prog R) ctx k k',
+  checktx_admit ctx k p k' = if k =? k' then Some (seq_of ctx k + 1) else ctx k'.
+Proof.
+  intros R p ctx k k'. unfold checktx_admit. rewrite trial_exec_pure. cbn [fst].
+  unfold kv_over. cbn [ov_get]. destruct (k =? k') eqn:E.
+  - reflexivity.
+  - reflexivity.
+Qed.
+
+Lemma checktx_seqs_spec : forall R (p : prog R) m ctx k,
+  checktx_seqs m ctx k p = map (fun i => seq_of ctx k + N.of_nat i) (seq 1 m).
+Proof.
+  induction m as [|m IH]; intros ctx k; [reflexivity|].
+  cbn [checktx_seqs]. rewrite IH. cbn [seq map].
+  assert (E : seq_of (checktx_admit ctx k p) k = seq_of ctx k + 1).
+  { unfold seq_of at 1. rewrite checktx_admit_state. rewrite N.eqb_refl. reflexivity. }
+  rewrite E. f_equal. rewrite <- (seq_shift m 1), map_map. apply map_ext. intros i. lia.
+Qed.
